@@ -224,6 +224,20 @@ impl ReceiveChannelUnreliable {
     }
 }
 
+#[cfg(feature = "verif")]
+impl SendChannelUnreliable {
+    pub(crate) fn verif_set_next_message_id(&mut self, id: u64) {
+        self.sliced_message_id = id;
+    }
+}
+
+#[cfg(feature = "verif")]
+impl ReceiveChannelUnreliable {
+    pub(crate) fn verif_memory(&self) -> (usize, usize) {
+        (self.memory_usage_bytes, self.max_memory_usage_bytes)
+    }
+}
+
 #[cfg(test)]
 mod tests {
     use octets::OctetsMut;
